@@ -70,6 +70,14 @@ impl GraphBlock {
         }
     }
 
+    fn is_empty_text(&self) -> bool {
+        match self {
+            GraphBlock::Plain(inlines) => inlines.is_empty(),
+            GraphBlock::Para(inlines) => inlines.is_empty(),
+            _ => false,
+        }
+    }
+
     fn is_paragraph(&self) -> bool {
         match self {
             GraphBlock::Plain(_) => true,
@@ -379,10 +387,12 @@ impl GraphInline {
 fn left_pad_and_prefix(text: &str) -> String {
     let mut result = String::new();
     for (n, line) in text.lines().enumerate() {
-        if line.is_empty() {
+        if n == 0 {
+            // the marker is written even when the item has no text of its own
+            result.push_str(format!("- {}", line).trim_end());
             result.push_str("\n");
-        } else if n == 0 {
-            result.push_str(&format!("- {}\n", line));
+        } else if line.is_empty() {
+            result.push_str("\n");
         } else {
             result.push_str(&format!("  {}\n", line));
         }
@@ -395,10 +405,11 @@ fn left_pad_and_prefix_num(text: &str, num: usize) -> String {
     let prefix = format!("{}.{}", num, if num > 9 { "" } else { " " });
     let mut result = String::new();
     for (n, line) in text.lines().enumerate() {
-        if line.is_empty() {
+        if n == 0 {
+            result.push_str(format!("{} {}", prefix, line).trim_end());
             result.push_str("\n");
-        } else if n == 0 {
-            result.push_str(&format!("{} {}\n", prefix, line));
+        } else if line.is_empty() {
+            result.push_str("\n");
         } else {
             result.push_str(&format!("{} {}\n", " ".repeat(prefix.len()), line));
         }
@@ -568,11 +579,21 @@ pub fn inlines_to_markdown(content: &GraphInlines, options: &MarkdownOptions) ->
 }
 
 pub fn blocks_to_markdown_and(blocks: &Blocks, sparce: bool, options: &MarkdownOptions) -> String {
-    blocks
-        .iter()
-        .map(|block| block.to_markdown(options))
-        .collect::<Vec<String>>()
-        .join(if sparce { "\n" } else { "" })
+    let mut result = String::new();
+
+    for (n, block) in blocks.iter().enumerate() {
+        if n > 0 && sparce {
+            // an item without text of its own is just its marker line: the first block
+            // must follow it directly, a blank line would end the item
+            let after_empty_text = n == 1 && blocks[0].is_empty_text();
+            if !after_empty_text {
+                result.push_str("\n");
+            }
+        }
+        result.push_str(&block.to_markdown(options));
+    }
+
+    result
 }
 
 pub fn blocks_to_markdown(blocks: &Blocks, options: &MarkdownOptions) -> String {
